@@ -64,8 +64,11 @@ FINDINGS = [
      "when the nonlocal form sits in the top-level statement list; compile() raises TypeError"),
     ("C10-constant-name-identifier", r"^compile:ValueError:identifier field can'_'(None|True|False)' constant$",
      "constant_name_in_deftype_or_pattern",
-     "(deftype None 1), (match x \uff2eone y): a name that is or NFKC-normalises to None/True/False reaches an identifier field "
-     "(deftype has no _nonconst; _nonconst tests the unmangled text); compile() raises ValueError"),
+     "(deftype None 1), (defclass :tp [None] C), (defn :tp [#* True] f [] 1), (match x \uff2eone y), (match x [#* None] y): a name "
+     "that is or NFKC-normalises to None/True/False reaches an identifier field -- the name of a deftype, a type-parameter "
+     "name of :tp (TypeVar / TypeVarTuple / ParamSpec in digest_type_params), a binding position of a match pattern, or any "
+     "target whose text only normalises to the constant (_nonconst tests the unmangled text; deftype and digest_type_params "
+     "have no _nonconst); compile() raises ValueError"),
     ("C10-match-class-head", r"^compile:ValueError:MatchClass cls field can only contain Name or Attribute nodes\.$", "class_pattern_head",
      "(match x ((. None)) y), (match x (f (False)) y): a class pattern whose head compiles to a constant; compile() raises ValueError"),
     ("C10-mapping-pattern-in-comprehension", r"^compile:ValueError:field '_' is required for Name$", "mapping_pattern_in_comprehension",
@@ -110,6 +113,29 @@ def corpus_first(chk, hy):
             chk.fail("corpus-regression:" + valid_oracle.key_of(res), {"tree": c["source"], "note": c["note"], "features": {}},
                      "%s at %s: %s" % (res[2], res[1], res[3][-200:]), "accepted, or a HyLanguageError/SyntaxError",
                      "compile(hy_compile(hy.read_many(%r), module), '<s>', 'exec')" % c["source"])
+
+
+def witnesses_first(chk, hy):
+    """inputs of recorded findings (corpus/C10/witnesses.json), judged before anything generated: while the defect is there
+    each is reported through its known finding; one that no longer violates the property is only counted"""
+    import json
+    import os
+    path = os.path.join(vlib.VERIF, "corpus", "C10", "witnesses.json")
+    if not os.path.exists(path):
+        return
+    for c in json.load(open(path)):
+        forms = list(hy.read_many(c["source"]))
+        tree = forms[0] if len(forms) == 1 else hy.models.Expression([hy.models.Symbol("do"), *forms])
+        res = valid_oracle.classify(hy, tree)
+        chk.case(("witness", c["source"]), nontrivial=True)
+        if res[0] != "violation":
+            chk.count("witness:no-longer-a-violation:" + c["finding"])
+            continue
+        chk.count("witness:reproduces:" + c["finding"])
+        chk.fail(valid_oracle.key_of(res), {"tree": c["source"], "python": valid_oracle.py_repr(tree), "features": valid_oracle.features(hy, tree),
+                                          "note": c["note"]},
+                 "%s at %s: %s" % (res[2], res[1], res[3][-200:]), "an AST accepted by compile() and marshal, or a HyLanguageError/SyntaxError",
+                 "compile(hy_compile(hy.read_many(%r), module), '<s>', 'exec')" % c["source"])
 
 
 def c10_class_matcher(rec, params):
@@ -252,6 +278,7 @@ def run(chk):
         except Exception as e:
             chk.obligation("handler correspondence ran", False, str(e)[-1500:])
     corpus_first(chk, hy)
+    witnesses_first(chk, hy)
     run_oracle(chk, 900000 if thorough else 18000, 8 if thorough else 6)
 
 
